@@ -545,9 +545,7 @@ func (c *compiler) evalIdentifier(node *ast.Identifier) (interface{}, error) {
 
 func (c *compiler) evalInfixExpression(node *ast.InfixExpression) (interface{}, error) {
 	lres, err := c.evalExpression(node.Left)
-	if err != nil &&
-		node.Operator != "==" && node.Operator != "!=" &&
-		node.Operator != "||" && node.Operator != "&&" {
+	if err != nil && !toleratedOperandError(node.Operator, err) {
 		return nil, err
 	} // nil lres is acceptable only for '==', '!=', and logical operators
 
@@ -559,9 +557,7 @@ func (c *compiler) evalInfixExpression(node *ast.InfixExpression) (interface{}, 
 	}
 
 	rres, err := c.evalExpression(node.Right)
-	if err != nil &&
-		node.Operator != "==" && node.Operator != "!=" &&
-		node.Operator != "||" && node.Operator != "&&" {
+	if err != nil && !toleratedOperandError(node.Operator, err) {
 		return nil, err
 	} // nil rres is acceptable only for '==', '!=', and logical operators
 
@@ -598,6 +594,17 @@ func (c *compiler) evalInfixExpression(node *ast.InfixExpression) (interface{}, 
 	}
 
 	return nil, fmt.Errorf("unable to operate (%s) on %T and %T ", node.Operator, lres, rres)
+}
+
+// toleratedOperandError reports whether an operand error may be treated as a
+// nil operand: only an unknown identifier, and only for '==', '!=', '&&', '||'.
+func toleratedOperandError(op string, err error) bool {
+	switch op {
+	case "==", "!=", "||", "&&":
+		_, ok := err.(*ErrUnknownIdentifier)
+		return ok
+	}
+	return false
 }
 
 func (c *compiler) arrayOperator(l interface{}, r interface{}, op string) (interface{}, error) {
